@@ -35,9 +35,14 @@ type TSM struct {
 	// Latency, if set, is the simulated time an operation takes; slept only while InBubble (fake clock).
 	Latency  func(kind, path string) time.Duration
 	InBubble bool
+	// OnOp, if set, is called at the start of every client operation (a park point for the seeded scheduler).
+	OnOp func(kind, path string)
 }
 
 func (t *TSM) wait(kind, path string) {
+	if t.OnOp != nil {
+		t.OnOp(kind, path)
+	}
 	if t.Latency != nil && t.InBubble {
 		if d := t.Latency(kind, path); d > 0 {
 			time.Sleep(d)
